@@ -806,3 +806,5 @@ for _n in range(1, 7):
     B("C15", _n)
 for _n in range(1, 7):
     B("C17", _n)
+for _n in range(1, 7):
+    B("C18", _n)
